@@ -193,6 +193,13 @@ package q
 //@   assigns H.*, M.*, G.*, E.gedcom*, E.*gedcom*, E.string, E.byte, alloc
 //@ sweep C15: AccessorExpr.Evaluate, FirstExpr.Evaluate, LastExpr.Evaluate, LengthExpr.Evaluate, QuestionMarkExpr.Evaluate, CombineExpr.Evaluate, OnlyExpr.Evaluate
 //@ sweep C15: Engine.StatementByVariableName, VariableExpr.Evaluate, CallExpr.Evaluate, ConstantExpr.Evaluate, ValueExpr.Evaluate
+//@ sweep C15: NodesWithTagPathExpr.Evaluate, BinaryExpr.Evaluate, ObjectExpr.Evaluate
+// (two documents are indexed after the loop: each round appends one or returns)
+//@ func MergeDocumentsAndIndividualsExpr.Evaluate
+//@   props C15
+//@   safety
+//@   requires forall(j, 0, len(args), args[j] != nil)
+//@   loop 1 invariant one-document-per-argument: len(documents) == rangeindex + 1 && rangeindex < len(args)
 
 // ---------------------------------------------------------------------------
 // C16: the comparison operators. Both operands are turned into text; when both
